@@ -99,8 +99,9 @@ impl Prop {
     /// Capacities covered by the sparse boundary space (`gen_enum::large`) on top of the exhaustive ones.
     pub fn large_caps(self, thorough: bool) -> Vec<usize> {
         let v: Vec<usize> = match (self, thorough) {
-            (Prop::C01 | Prop::C03 | Prop::C07 | Prop::C08 | Prop::C09 | Prop::C20, false) => vec![19, 23, 29, 32, 33, 64, 65, 128, 129, 256, 1000],
-            (Prop::C01 | Prop::C03 | Prop::C07 | Prop::C08 | Prop::C09 | Prop::C20, true) => vec![17, 19, 23, 24, 29, 31, 32, 33, 64, 65, 100, 128, 129, 255, 256, 1000],
+            (Prop::C09 | Prop::C20, false) => vec![19, 23, 29, 32, 33, 64, 65, 128, 129, 256, 1000, 2048],
+            (Prop::C01 | Prop::C03 | Prop::C07 | Prop::C08, false) => vec![19, 23, 29, 32, 33, 64, 65, 128, 129, 256, 1000],
+            (Prop::C01 | Prop::C03 | Prop::C07 | Prop::C08 | Prop::C09 | Prop::C20, true) => vec![17, 19, 23, 24, 29, 31, 32, 33, 64, 65, 100, 128, 129, 255, 256, 1000, 2048],
             (Prop::C04 | Prop::C10 | Prop::C11 | Prop::C12, false) => vec![23, 33, 64, 65, 256],
             (Prop::C04 | Prop::C10 | Prop::C11 | Prop::C12, true) => vec![19, 23, 29, 32, 33, 64, 65, 128, 129, 256, 1000],
             (Prop::C05 | Prop::C06, false) => vec![23, 33, 64, 65, 256],
@@ -108,7 +109,8 @@ impl Prop {
             _ => vec![],
         };
         let caps = self.caps(thorough);
-        v.into_iter().filter(|n| !caps.contains(n)).collect()
+        // the 256-byte element at capacity 2048 is half a MiB per buffer by value: left to the ordinary builds
+        v.into_iter().filter(|n| !caps.contains(n) && !(cfg!(feature = "wide-elem") && *n > 1000)).collect()
     }
 
     pub fn rule(self) -> &'static str {
